@@ -3,7 +3,7 @@
 use crate::driver::{fnv, Rec, Run};
 use crate::formats::tap;
 use crate::host::{DynAsset, Machine, MemAsset};
-use crate::mach;
+use crate::mach::{self, RegFile};
 use crate::props::c10::{self, block_bytes, BlockSpec, Rq};
 use crate::tape::{block_pulses, ld_bytes, PulseKind, BIT0, BIT1, PILOT, PILOT_DATA, PILOT_HEADER, SYNC1, SYNC2};
 use proptest::prelude::*;
@@ -238,6 +238,75 @@ pub fn check_sys(c: &SysCase, rec: &mut Rec) -> Result<(), String> {
     Ok(())
 }
 
+// ---------------------------------------------------------------------------------------
+// the EAR input is bit 6 of *every* ULA port address
+
+#[derive(Clone, Debug, Serialize, Deserialize)]
+pub struct EarCase {
+    pub machine: Machine,
+    pub block: BlockSpec,
+    /// (delay loop count, high byte of the port address)
+    pub samples: Vec<(u8, u8)>,
+}
+
+/// While the tape plays, a read of any even port address carries the EAR level in bit 6,
+/// whatever the high byte (keyboard half-row selection) is: metamorphic relation between the
+/// loader's 0x7FFE and a generated address, taken a few T-states apart and bracketed by a second
+/// 0x7FFE read so that an edge falling in between is recognised and not judged.
+pub fn check_ear(c: &EarCase, rec: &mut Rec) -> Result<(), String> {
+    let image = tap::write(&[block_bytes(&c.block)]);
+    let mut rig = c10::mk_rig(c.machine, 1, false);
+    rig.e.load_tape(Tape::Tap(DynAsset::new(MemAsset::new(image)))).map_err(|x| format!("load_tape: {:?}", x))?;
+    rig.e.play_tape();
+    // 0x8000: IN A,(C)      0x8010: LD B,n ; DJNZ $ ; (stop at 0x8014)
+    mach::poke_bytes(&mut rig.e, &mut rig.m, 0x8000, &[0xED, 0x78]);
+    let mut levels = [0u32; 2];
+    let mut judged = 0u32;
+    let read = |rig: &mut c10::Rig, hh: u8| -> Result<u8, String> {
+        mach::set_regs(&mut rig.e, &RegFile { pc: 0x8000, sp: 0xBF00, bc: ((hh as u16) << 8) | 0xFE, ..Default::default() });
+        mach::step_over(&mut rig.e, 2)?;
+        Ok((mach::get_regs(&mut rig.e).af >> 8) as u8)
+    };
+    for (k, (delay, hh)) in c.samples.iter().enumerate() {
+        mach::poke_bytes(&mut rig.e, &mut rig.m, 0x8010, &[0x06, *delay, 0x10, 0xFE, 0x00]);
+        mach::set_regs(&mut rig.e, &RegFile { pc: 0x8010, sp: 0xBF00, ..Default::default() });
+        if mach::run_to(&mut rig.e, &[0x8014], 3)?.is_none() {
+            return Err("harness: delay loop did not finish".into());
+        }
+        let a = read(&mut rig, 0x7F)?;
+        let b = read(&mut rig, *hh)?;
+        let a2 = read(&mut rig, 0x7F)?;
+        rec.eval();
+        if (a ^ a2) & 0x40 != 0 {
+            rec.class("ear:edge-between-the-reads");
+            continue;
+        }
+        judged += 1;
+        levels[((a >> 6) & 1) as usize] += 1;
+        if (a ^ b) & 0x40 != 0 {
+            return Err(format!(
+                "sample {}: with the tape playing, IN from {:#06x} gives {:#04x} (bit 6 = {}) between two reads of 0x7FFE that both give bit 6 = {}: the EAR input must appear on bit 6 of every ULA port address",
+                k, ((*hh as u16) << 8) | 0xFE, b, (b >> 6) & 1, (a >> 6) & 1
+            ));
+        }
+    }
+    if levels[0] > 0 && levels[1] > 0 {
+        rec.class("ear:both-levels-judged");
+        rec.nontrivial(fnv(format!("{:?}", c).as_bytes()));
+    }
+    let _ = judged;
+    Ok(())
+}
+
+pub fn ear_strategy() -> impl Strategy<Value = EarCase> {
+    (
+        prop_oneof![Just(Machine::K48), Just(Machine::K128)],
+        small_block(),
+        proptest::collection::vec((any::<u8>(), prop_oneof![2 => Just(0xFFu8), 1 => Just(0x00), 1 => Just(0xFE), 1 => Just(0xBF), 3 => any::<u8>()]), 8..=40),
+    )
+        .prop_map(|(machine, block, samples)| EarCase { machine, block, samples })
+}
+
 pub fn schedule_strategy() -> impl Strategy<Value = Vec<u8>> {
     prop_oneof![
         3 => proptest::collection::vec(1u8..=16, 1..=64),
@@ -281,18 +350,20 @@ pub fn run(run: &mut Run) {
     let t = run.tier;
     run.explore("waveform", t.pick(900, 60_000), wave_strategy, check_wave);
     run.explore("rom-loader-real-time", t.pick(160, 8_000), sys_strategy, check_sys);
+    run.explore("ear-on-every-ula-address", t.pick(600, 30_000), ear_strategy, check_ear);
 }
 
 pub fn replay(run: &mut Run, phase: &str, case: &serde_json::Value) -> Result<(), String> {
     match phase {
         "waveform" => run.replay_one::<WaveCase, _>(phase, case, check_wave),
+        "ear-on-every-ula-address" => run.replay_one::<EarCase, _>(phase, case, check_ear),
         "rom-loader-real-time" => run.replay_one::<SysCase, _>(phase, case, check_sys),
         _ => Err(format!("unknown phase {}", phase)),
     }
 }
 
 pub const LEVEL: &str = "exploration";
-pub const RULE: &str = "waveform: TAP images of 1..3 blocks (all flag bytes, payload 0..260 bytes across the 128-byte refill boundary, right/wrong checksum) played through the pulse generator with time advanced by a cycled schedule of 1..64 steps of 1..16 T-states (uniform, all-1, all-16, sawtooth, instruction-like mixes); every interval between EAR edges is compared with the nominal list synthesised from the bytes: pilot count 8063 (+-1) for flag 0x00 / >= 3223 otherwise, 667, 735, two equal 855/1710 pulses per bit MSB first for every byte, pause 3.0..4.0 M T; each pulse within [nominal, nominal+32]; count and order exact. rom-loader-real-time: the real ROM LD-BYTES is called (requests as in C10) while the tape plays on the emulator (in half of the cases with the host's fast-load setting switched on: a playing deck must still deliver every block through EAR); carry, IX, DE and memory must equal the LD-BYTES model of the block's bytes (which C10 shows fast loading equals). non-trivial (waveform) = block with >= 2 distinct bytes, length other than 19/6914, schedule with >= 3 distinct step sizes; (system) every request; distinct = hash of (block bytes, schedule) / (case, request)";
+pub const RULE: &str = "waveform: TAP images of 1..3 blocks (all flag bytes, payload 0..260 bytes across the 128-byte refill boundary, right/wrong checksum) played through the pulse generator with time advanced by a cycled schedule of 1..64 steps of 1..16 T-states (uniform, all-1, all-16, sawtooth, instruction-like mixes); every interval between EAR edges is compared with the nominal list synthesised from the bytes: pilot count 8063 (+-1) for flag 0x00 / >= 3223 otherwise, 667, 735, two equal 855/1710 pulses per bit MSB first for every byte, pause 3.0..4.0 M T; each pulse within [nominal, nominal+32]; count and order exact. rom-loader-real-time: the real ROM LD-BYTES is called (requests as in C10) while the tape plays on the emulator (in half of the cases with the host's fast-load setting switched on: a playing deck must still deliver every block through EAR); carry, IX, DE and memory must equal the LD-BYTES model of the block's bytes (which C10 shows fast loading equals). ear-on-every-ula-address: while a block plays, IN from a generated even port address (high byte 0xFF, 0x00, 0xFE, 0xBF or any) must show in bit 6 the level that two bracketing reads of 0x7FFE show (samples where the bracketing reads differ are not judged). non-trivial (waveform) = block with >= 2 distinct bytes, length other than 19/6914, schedule with >= 3 distinct step sizes; (system) every request; distinct = hash of (block bytes, schedule) / (case, request)";
 pub const ASSUMPTIONS: &[&str] = &[
     "pulse generator is driven through the cfg(rustzx_verif) re-export of Tap/TapeImpl; time between toggles is measured at the granularity of the schedule steps",
     "the first pilot pulse of a block may merge with the preceding silence (pilot count tolerance of one)",
